@@ -151,34 +151,46 @@ Inductive tr : Type :=
 | TDns (server : bool) (domains : list (list Z)).
 
 (* ---- correspondence cases ---------------------------------------------------------------------- *)
-Inductive pay : Type := PLit (l : list Z) | PGen (kind seed n : Z).
-Inductive wire : Type := WLit (l : list Z) | WHash (n h : Z).
+Inductive pay : Type := PLit (l : list Z) | PGen (kind seed n : Z) | PCat (a b : pay).
+(* the observed wire: literal, or length and digest; for the DNS transform additionally the random
+   bytes drawn for each packet, in order (2 per packet, 7 in the server role) *)
+Inductive wire : Type := WLit (l : list Z) | WHash (n h : Z) | WDns (w : wire) (draws : list (list Z)).
 Inductive elem : Type :=
 | EHex
 | EB64
 | EXor (key : list Z)
 | ECbk (size : Z) (offs : list Z) (items : list (list Z * list (Z * Z))).  (* items j: constants of block j (j < 31) *)
 
-Definition lcg (s : Z) : Z := u64 (s * 6364136223846793005 + 1442695040888963407).
+Definition M64 : Z := 18446744073709551615.
+(* one xorshift64 step (13, 7, 17) *)
+Definition xs64 (x : Z) : Z :=
+  let x := Z.lxor x (Z.land (Z.shiftl x 13) M64) in
+  let x := Z.lxor x (Z.shiftr x 7) in
+  Z.lxor x (Z.land (Z.shiftl x 17) M64).
 Fixpoint gen_f (n : nat) (kind s i : Z) : list Z :=
   match n with
   | O => []
   | S m =>
-    if kind =? 0 then let s' := lcg s in s' / 72057594037927936 :: gen_f m kind s' (i + 1)
+    if kind =? 0 then let s' := xs64 s in Z.land s' 255 :: gen_f m kind s' (i + 1)
     else if kind =? 1 then 0 :: gen_f m kind s (i + 1)
     else if kind =? 2 then 255 :: gen_f m kind s (i + 1)
     else if kind =? 3 then u8 (i + s) :: gen_f m kind s (i + 1)
-    else let s' := lcg s in 65 + (s' / 4611686018427387904) mod 4 :: gen_f m kind s' (i + 1)
+    else let s' := xs64 s in 65 + Z.land s' 3 :: gen_f m kind s' (i + 1)
   end.
-Definition pay_bytes (p : pay) : list Z :=
-  match p with PLit l => l | PGen kind seed n => gen_f (Z.to_nat n) kind seed 0 end.
+Fixpoint pay_bytes (p : pay) : list Z :=
+  match p with
+  | PLit l => l
+  | PGen kind seed n => gen_f (Z.to_nat n) kind seed 0
+  | PCat a b => pay_bytes a ++ pay_bytes b
+  end.
 
-Definition fnv64a (l : list Z) : Z :=
-  fold_left (fun h c => u64 (Z.lxor h c * 1099511628211)) l 14695981039346656037.
-Definition wire_eqb (model : list Z) (w : wire) : bool :=
+(* the digest long wires are compared by (harness: hash64) *)
+Definition hash64 (l : list Z) : Z := fold_left (fun h c => Z.lxor (xs64 h) c) l 88172645463325252.
+Fixpoint wire_eqb (model : list Z) (w : wire) : bool :=
   match w with
   | WLit l => zlist_eqb model l
-  | WHash n h => (len model =? n) && (fnv64a model =? h)
+  | WHash n h => (len model =? n) && (hash64 model =? h)
+  | WDns w' _ => wire_eqb model w'
   end.
 
 Definition steps_of (gh : list (Z * Z)) : list (nat * nat) := map (fun p => (Z.to_nat (fst p), Z.to_nat (snd p))) gh.
@@ -194,15 +206,17 @@ Definition elem_w (e : elem) : wrapper :=
   end.
 
 (* the DNS transform picks one of its domains at random: the wire must be the encoding for one of
-   them; the random id bytes are read off the observed wire *)
+   them, with the random bytes that were observed *)
 Definition tr_enc_ok (t : tr) (x : list Z) (w : wire) : bool :=
   match t with
   | TNone => wire_eqb x w
   | TB64 s => wire_eqb (b64t_enc s x) w
   | TDns server ds =>
     match w with
-    | WLit l => existsb (fun d => zlist_eqb (dns_encode server d (fun o => nth (Z.to_nat o) l 0) x) l) ds
-    | WHash _ _ => false
+    | WDns w' draws =>
+      let rnd := fun k f => nth (Z.to_nat f) (nth (Z.to_nat k) draws []) 0 in
+      existsb (fun d => wire_eqb (dns_encode server d rnd x) w') ds
+    | _ => false
     end
   end.
 Definition tr_dec (t : tr) (w : list Z) : res (list Z) :=
@@ -211,10 +225,15 @@ Definition tr_dec (t : tr) (w : list Z) : res (list Z) :=
   | TB64 s => b64t_dec s w
   | TDns _ _ => dns_decode w
   end.
-Definition tr_dec_ok (t : tr) (x : list Z) (w : wire) : bool :=
-  match w with
-  | WLit l => res_eqb zlist_eqb (tr_dec t l) (Ok x)
-  | WHash _ _ => true            (* wire too long to be carried: only the encoder is compared *)
+(* the model's decoder on the model's own wire (equal to the observed one by the encoder check) *)
+Definition tr_roundtrip_ok (t : tr) (x : list Z) (w : wire) : bool :=
+  match t, w with
+  | TNone, _ => true
+  | TB64 s, _ => res_eqb zlist_eqb (b64t_dec s (b64t_enc s x)) (Ok x)
+  | TDns server ds, WDns _ draws =>
+    let rnd := fun k f => nth (Z.to_nat f) (nth (Z.to_nat k) draws []) 0 in
+    forallb (fun d => res_eqb zlist_eqb (dns_decode (dns_encode server d rnd x)) (Ok x)) (firstn 3 ds)
+  | TDns _ _, _ => false
   end.
 
 Inductive case : Type :=
@@ -231,12 +250,12 @@ Definition check (c : case) : bool :=
     let m := wrap_stack ws x in
     wire_eqb m w && res_eqb zlist_eqb (unwrap_stack ws m) (Ok x)
   | CTrans t p w =>
-    let x := pay_bytes p in tr_enc_ok t x w && tr_dec_ok t x w
+    let x := pay_bytes p in tr_enc_ok t x w && tr_roundtrip_ok t x w
   | CFull es t p w =>
     let ws := map elem_w es in
     let x := pay_bytes p in
     let m := wrap_stack ws x in
-    tr_enc_ok t m w && tr_dec_ok t m w && res_eqb zlist_eqb (unwrap_stack ws m) (Ok x)
+    tr_enc_ok t m w && tr_roundtrip_ok t m w && res_eqb zlist_eqb (unwrap_stack ws m) (Ok x)
   | CBlock offs gh blk enc dec2 =>
     zlist_eqb (blk_encrypt offs (steps_of gh) blk) enc && zlist_eqb (blk_decrypt offs (steps_of gh) blk) dec2
   end.
